@@ -1082,4 +1082,35 @@ Proof.
     + unfold Server.take_step. cbn. destruct (nth_error _ w) as [[?|]|]; reflexivity.
     + unfold Server.serve_step. cbn. destruct (nth_error_repeat_none (nworkers K) w) as [-> | ->]; reflexivity.
 Qed.
+
+(* the forking server: the parent has given the socket away; close() finds nothing to shut down *)
+Theorem close_refuted_forking : kind K = Forking -> fork_parent_keeps (fx K) = false -> has_auth K = false ->
+  exists s, exec [EConnect 1 AuthOk; EAccept; EWork 1; EClose] (init K) = Some s
+    /\ closed s = true /\ quiescent s
+    /\ stg (conns s 1) = Own /\ shut (conns s 1) = false /\ gone (conns s 1) = false
+    /\ authd (conns s 1) = true /\ hooks (conns s 1) = 0.
+Proof.
+  intros Kp Pf Ha.
+  exists (server_close K (set_conn (with_clients (w_accepted_base 1 AuthOk) []) 1 (k_authd (conns (w_accepted_base 1 AuthOk) 1)))). split.
+  - cbn. unfold accept, server_close, w_accepted_base, w_connected, Server.work. cbn. repeat (progress (rewrite ?Kp, ?Pf, ?Ha; cbn)). reflexivity.
+  - unfold server_close. cbn. rewrite Kp. cbn. repeat split.
+    intros e He. destruct e; try discriminate He; cbn; rewrite ?Kp; try reflexivity.
+    unfold Server.work. cbn. unfold shut_all, reset_all, upd. cbn. destruct (Nat.eqb c 1); reflexivity.
+Qed.
+
+(* the thread pool keeps the socket of a client that failed to authenticate in Server.clients after that client has left *)
+Theorem residue_refuted_pool : kind K = Pool -> pool_fail_discards (fx K) = false -> has_auth K = true ->
+  exists s, exec [EConnect 1 AuthFail; EAccept; ELeave 1 false] (init K) = Some s
+    /\ active s = true /\ quiescent s /\ gone (conns s 1) = true /\ mem 1 (clients s) = true.
+Proof.
+  intros Kp Pf Ha.
+  exists (set_conn (pool_reject K 1 (w_accepted_base 1 AuthFail)) 1 (k_gone (conns (pool_reject K 1 (w_accepted_base 1 AuthFail)) 1))). split.
+  - cbn. unfold accept, pool_reject, w_accepted_base, w_connected. cbn. repeat (progress (rewrite ?Kp, ?Pf, ?Ha; cbn)). reflexivity.
+  - unfold pool_reject. cbn. rewrite Pf. cbn. repeat split.
+    intros e He. destruct e; try discriminate He; cbn; rewrite ?Kp; try reflexivity.
+    + unfold Server.work. cbn. unfold upd. cbn. destruct (Nat.eqb c 1); reflexivity.
+    + unfold Server.poll_step. cbn. now rewrite andb_false_r.
+    + unfold Server.take_step. cbn. destruct (nth_error _ w) as [[?|]|]; reflexivity.
+    + unfold Server.serve_step. cbn. destruct (nth_error_repeat_none (nworkers K) w) as [-> | ->]; reflexivity.
+Qed.
 End P.
